@@ -205,3 +205,24 @@ seed('S-c15d', 'C15', 'lexgen_util: a private field exhausted: Rc<Cell<bool>> se
      'first run inconclusive (no model of Rc). Added: Rc::{new,clone,deref} with the pointee in the state (clones share it), comparison of the action logs (rule, match_loc, peek) of clone and original - not only of the items -, a run-ahead schedule (the original runs to the end of its stream, then the clone makes its first call) used when clone()/next() touch state outside the lexer value, and a native driver mode for it')
 seed('S-c18d', 'C18', 'char_range_gen: a surrogate inherits the answer of the previous code point, the 0xE000 special case for the range end is dropped',
      'a predicate true at U+D7FF and false at U+E000: the range ends at U+DFFF (not a scalar value)', ['C18'], [], 'first run inconclusive (Result::map_or with the predicate as function pointer); summary added')
+# ---- round 10
+seed('S-c03f', 'C03', 'dfa.rs DFA::add_dfa: the target of the `_` transition is shifted by the growing self.states.len() instead of the captured offset',
+     'a rule set other than Init with `_` after another symbol, the target also reached by a character or range (else the macro panics), and a rule set declared behind it: the lexer lands in a state of the next rule set', ['C03'], [],
+     'first run missed it silently: the definitions it affects made the proc macro panic and were dropped from the family ("not expanded, no verdict"). Now a generated definition that the macro does not turn into a lexer makes the check inconclusive (on the repaired tree every generated definition expands). Added: the any-in-the-middle family and variants of the multi-rule-set definitions with a trailing rule set that nothing switches to, so that wrongly renumbered transitions stay inside the automaton and misbehave at run time')
+seed('S-c04f', 'C04', 'right contexts that "can match the empty string" are dropped at compile time; matches_empty treats a concatenation like an alternation',
+     'a right context that is a concatenation of a nullable and a non-nullable part', ['C04'], [], '9 roles')
+seed('S-c05f', 'C05', 'dfa.rs DFA::add_dfa: the end-of-input edge is shifted by the growing self.states.len()',
+     'a rule ending in `$` that is reachable after at least one consumed character, in a rule set other than Init, with a rule set declared behind it', ['C05'], [],
+     'first run missed it for the same reason as S-c03f (macro panic, definition dropped); caught by a padded variant')
+seed('S-c07e', 'C07', 'codegen.rs generate_state: when no right context of an accepting state holds, reset_accepting_state() is emitted (drops the shorter match saved earlier in the lexeme)',
+     'a shorter rule matched a prefix, a right-context rule matches further but its context fails, no longer rule matches: InvalidToken instead of the shorter match', ['C07'], [], '4 roles')
+seed('S-c09f', 'C09', 'codegen.rs fail closure: for accepting states the error arm of backtrack() is replaced by unreachable!()',
+     'a state all of whose accepts have right contexts, reached with the context failing and nothing saved: next() panics', ['C09'], [],
+     'first run inconclusive: explicit panics (panic!/unreachable! through fmt::Arguments and core::panicking) had no model, only compiler-inserted assertions had; added')
+seed('S-c10f', 'C10', 'lexgen_util backtrack(): the saved match is read by reference instead of take()n, so it stays armed',
+     'a token produced by backtracking, then a scan that fails through backtrack() without a match of its own: the old action runs again (and again)', ['C10'], [], '')
+seed('S-c13e', 'C13', 'char_range_gen defines ascii_x as is_ascii() && is_x() for six classes and char_ranges.rs is regenerated: ASCII_WHITESPACE gains U+000B',
+     'the class $$ascii_whitespace and the character U+000B', ['C13'], [], 'Kani table harness (part a) and the lexer part both report it')
+seed('S-c14e', 'C14', 'lexgen_util new_from_iter_with_state sets __done from whether the iterator is empty',
+     'an iterator lexer over the empty input and an Init `$` rule', ['C14'], [],
+     'first run inconclusive (the reference constructor had two paths); the comparison now takes a constructor that does not branch on its input as the reference')
